@@ -121,6 +121,8 @@ func verifC01SetChange(ctx context.Context) {
 	digest := dg[:]
 	when := zzverif.Len("change", 1, 2) // 1: before the own observation, 2: after it
 
+	inA := func(j int) bool { return j < nA }
+	inB := func(j int) bool { return j >= shift && j < shift+nB }
 	early := zzverif.Len("early", 0, 1, 2, 3, 4, 9)
 	if early != 9 {
 		zzverif.Assume(early != own && early < 5)
@@ -130,11 +132,23 @@ func verifC01SetChange(ctx context.Context) {
 		p.gs = B
 	}
 	S := p.gs // in force at the node's own observation
+	inS := inA
+	if when == 1 {
+		inS = inB
+	}
+	// ghost (C02): distinct members of S whose observation was delivered and acceptable under the set applicable then
+	counted := map[int]bool{}
+	if early != 9 && inA(early) && inS(early) {
+		counted[early] = true
+	}
 	zzverif.NoPanic(func() { p.handleMessage(ctx, k) })
 	loop := verifRecvObs(p)
 	lbFirst := zzverif.Len("loopbackFirst", 0, 1) == 1
 	if lbFirst && loop != nil {
 		zzverif.NoPanic(func() { p.handleObservation(ctx, loop) })
+		if inS(own) {
+			counted[own] = true
+		}
 	}
 	if when == 2 {
 		p.gs = B
@@ -145,13 +159,20 @@ func verifC01SetChange(ctx context.Context) {
 		}
 		if zzverif.Len("deliver", 0, 1) == 1 {
 			zzverif.NoPanic(func() { p.handleObservation(ctx, verifObsBy(j, digest)) })
+			if inS(j) {
+				counted[j] = true
+			}
 		}
 	}
 	if !lbFirst && loop != nil {
 		zzverif.NoPanic(func() { p.handleObservation(ctx, loop) })
+		if inS(own) {
+			counted[own] = true
+		}
 	}
 	if verifC01CheckOutputs(p, k, S, "end") {
 		zzverif.Reach("published")
+		zzverif.Assert(len(counted) >= 2*len(S.Keys)/3+1, "c02:published-only-with-quorum-of-distinct-members-of-the-relevant-set-delivered")
 	} else {
 		zzverif.Reach("not-published")
 	}
